@@ -7,7 +7,7 @@
    partitions into import trees, all targets, banner line excluded). *)
 From Coq Require Import List String Bool Arith Permutation.
 From Coq Require Import Ascii.
-From PDV Require Import Lang.Comment Idl.GrammarDefs Idl.Lexer Idl.ParserG Idl.LayoutFree Idl.LexParseProofs Idl.LexLemmas Idl.LexStable Idl.LexWhite Gen.Grammar.
+From PDV Require Import Lang.Comment Idl.GrammarDefs Idl.Lexer Idl.ParserG Idl.LayoutFree Idl.LexParseProofs Idl.LexLemmas Idl.LexStable Idl.LexWhite Idl.LexWhiteParse Gen.Grammar.
 From PDV Require Import Lib.StrUtil Idl.Cst Idl.Ast Idl.Resolver Idl.ResolverProofs Idl.Visitor Idl.Front Idl.ChecksProofs Idl.LayoutProofs.
 Import ListNotations.
 Open Scope string_scope. Open Scope list_scope.
@@ -138,3 +138,38 @@ Theorem C11_white_space_run_replaceable : forall rules nm0 sk0 q pr c w1 w2 y la
     rest1 = e1 :: t1 /\ rest2 = e2 :: t2 /\ lexeme_text e1 = String c w1 /\ lexeme_text e2 = String c w2 /\ Forall2 same_lexeme t1 t2.
 Proof. exact white_space_run_replaceable. Qed.
 Print Assumptions C11_white_space_run_replaceable.
+
+(* end to end, for the grammar translated on this run: replacing a white-space run between two lexemes by another white-space run that starts
+   with the same character leaves the parse tree unchanged up to the recorded positions (or both texts are rejected) - the white-space theorem
+   above composed with C11_reformatting.  The hypotheses are about the FIRST text only. *)
+Theorem C11_white_space_does_not_change_the_tree : forall c, In c [nl; " "%char; "009"%char; "013"%char] ->
+  forall w1 w2 y la x rest1,
+  run_len ws_pred w1 = String.length w1 -> run_len ws_pred w2 = String.length w2 -> (match y with EmptyString => true | String a _ => negb (ws_pred a) end) = true ->
+  lex_all lexer_rules (x ++ String c (w1 ++ y)) = Some (la ++ rest1) -> concat_lexemes la = x -> no_err la -> has_lex_error (la ++ rest1) = false ->
+  erase_o (parse_text lexer_rules parser_rules start_rule (x ++ String c (w1 ++ y))) =
+  erase_o (parse_text lexer_rules parser_rules start_rule (x ++ String c (w2 ++ y))).
+Proof.
+  intros c Hc w1 w2 y la x rest1 H1 H2 Hy HL Hla Hne Herr.
+  apply (skipped_run_same_tree lexer_rules parser_rules start_rule "WS" ws_set ws_pred c w1 w2 y la x rest1); try assumption; try reflexivity;
+    try exact ws_rule_in_grammar; destruct Hc as [<-|[<-|[<-|[<-|[]]]]]; vm_compute; reflexivity.
+Qed.
+Print Assumptions C11_white_space_does_not_change_the_tree.
+
+(* the general form: any token table with a skipped single-character-run rule, any grammar over it *)
+Theorem C11_skipped_run_same_tree : forall rules prules start nm0 q pr c w1 w2 y la x rest1,
+  table_ok c rules = true -> In (nm0, (true, false, LPlus q)) rules -> single_char q = Some pr -> others_silent rules nm0 c = true -> pr c = true ->
+  run_len pr w1 = String.length w1 -> run_len pr w2 = String.length w2 -> (match y with EmptyString => true | String a _ => negb (pr a) end) = true ->
+  lex_all rules (x ++ String c (w1 ++ y)) = Some (la ++ rest1) -> concat_lexemes la = x -> no_err la -> has_lex_error (la ++ rest1) = false ->
+  erase_o (parse_text rules prules start (x ++ String c (w1 ++ y))) = erase_o (parse_text rules prules start (x ++ String c (w2 ++ y))).
+Proof. exact skipped_run_same_tree. Qed.
+Print Assumptions C11_skipped_run_same_tree.
+
+(* non-vacuity: a concrete text meets the hypotheses ("a = enum { x; }" with the run after "=") *)
+Example C11_white_space_tree_hypotheses_hold :
+  let x := "a ="%string in let y := "enum { x; }"%string in
+  exists la rest1, lex_all lexer_rules (x ++ String " " (" " ++ y)) = Some (la ++ rest1) /\ concat_lexemes la = x /\ no_err la /\ has_lex_error (la ++ rest1) = false.
+Proof.
+  cbv zeta. destruct (lex_all lexer_rules ("a =" ++ String " " (" " ++ "enum { x; }"))) as [ls|] eqn:E; [|vm_compute in E; discriminate].
+  vm_compute in E. injection E as <-. eexists (firstn 3 _), (skipn 3 _). rewrite firstn_skipn. cbn [firstn skipn].
+  split; [reflexivity|]. split; [vm_compute; reflexivity|]. split; [repeat constructor | vm_compute; reflexivity].
+Qed.
